@@ -8,7 +8,7 @@ import gen_cube as G
 
 ID = "C14"
 LEAN_MODULES = ["CatiiProps.C14"]
-USES_TRANSLATOR = ['walk']   # Gen/WalkGen.lean is rewritten from the current ccube._walk (tools/translate_walk.py)
+USES_TRANSLATOR = ['walk', 'kernels']   # Gen/WalkGen.lean is rewritten from the current ccube._walk (tools/translate_walk.py)
 TRUSTED = ["tools/translate_walk.py (ccube._walk -> the sequence of callback invocations; the diagnostic counter intersection_data_points is skipped; set_intersect_merge_np is the list merge Kern.inter, which C08 ties to the kernel)"]
 RULE = ("exhaustive: every list of 1..3 one-axis dims over N<=3 rows, values < 2, every common; random: 1..4 dims, N<=40, "
         "extents 1..5, commons frequent/rare/absent; the same with explicit entries that list no row added to the dimensions; every third random cube is walked with a callback that itself walks the cube again at one of its calls; every third is walked again after 1-3 in-place changes of its dimensions (update of a cell, shift_common(v)). Observed: ccube(dims).interactions() as a multiset of (coords, row ids). "
